@@ -728,6 +728,43 @@ def part2(ctx, env):
         saved_clear(); clear_all()
     env.clear_caches = clear_both
     try:
+        def evaluate(desc, progs, solo, tr, kind):
+            inp = {'ops': desc, 'picks': tr['picks']}
+            ctx.case(inp, nontrivial=len(tr['picks']) > 3, kind=kind)
+            memo_tie(ctx, batch, tr, inp)
+            ctx.count('part2:picks', len(tr['picks']))
+            for t, out in enumerate(tr['outs']):
+                got = out['results'] if not out['crash'] else [['crash', out['crash']]]
+                if got != solo[t]:
+                    j = next((k for k, (a, b) in enumerate(itertools.zip_longest(got, solo[t])) if a != b), 0)
+                    opname = desc[t][j][0] if j < len(desc[t]) else '?'
+                    kind_ = got[j][0] if j < len(got) and got[j][0] != 'ok' else 'value'
+                    ctx.violation('a thread running concurrently with others got a result different from the one it gets alone '
+                                  '(shared cache interference)', inp, observed={'thread': t, 'op': j, 'got': got[j] if j < len(got) else None},
+                                  expected=solo[t][j] if j < len(solo[t]) else None, key='shared-cache:%s:%s' % (opname, kind_))
+                    break
+        # the smallest programs first: two threads preparing the SAME never-prepared query, ALL interleavings of their cache accesses
+        # and of the `compile` calls inside create_extractors (capped)
+        for mk, arg in ((op_lam, 2), (op_strq, 2), (op_get, 1), (op_raw, 2)):
+            desc = [[[mk.__name__, arg]], [[mk.__name__, arg]]]
+            progs = [[{'do': mk(arg), 'shape': mk.__name__}], [{'do': mk(arg), 'shape': mk.__name__}]]
+            solo = [run_solo(env, p)['results'] for p in progs]
+            nrun = 0
+            # every single-preemption schedule: thread `a` runs k accesses, thread `b` runs to its end, `a` finishes
+            for a, b in ((0, 1), (1, 0)):
+                k = 0
+                while k < 200:
+                    state = {'n': 0}
+                    def ch(i, alive, a=a, b=b, k=k, state=state):
+                        if state['n'] < k and a in alive: state['n'] += 1; return a
+                        return b if b in alive else alive[0]
+                    tr = run_real(env, progs, ch, yield_at=tuple(names))
+                    evaluate(desc, progs, solo, tr, 'all-caches-preemption'); nrun += 1
+                    if state['n'] < k: break          # thread a has fewer than k accesses: all switch points done
+                    k += 1
+            for tr in explore(env, progs, ctx.scale(20, 200), yield_at=tuple(names)):
+                evaluate(desc, progs, solo, tr, 'all-caches-exhaustive'); nrun += 1
+            ctx.count('part2:exhaustive:%s' % mk.__name__, nrun)
         n = ctx.scale(40, 250)
         for i in range(n):
             rng = ctx.rng
@@ -746,20 +783,7 @@ def part2(ctx, env):
                     if r[0] != 'ok': ctx.count('part2:solo-error:%s:%s' % (dd[0], r[0]))
             for _ in range(ctx.scale(5, 8)):
                 tr = run_real(env, progs, random_chooser(rng, rng.choice([0.0, 0.5])), yield_at=tuple(names))
-                inp = {'ops': desc, 'picks': tr['picks']}
-                ctx.case(inp, nontrivial=len(tr['picks']) > 3, kind='all-caches')
-                memo_tie(ctx, batch, tr, inp)
-                ctx.count('part2:picks', len(tr['picks']))
-                for t, out in enumerate(tr['outs']):
-                    got = out['results'] if not out['crash'] else [['crash', out['crash']]]
-                    if got != solo[t]:
-                        j = next((k for k, (a, b) in enumerate(itertools.zip_longest(got, solo[t])) if a != b), 0)
-                        opname = desc[t][j][0] if j < len(desc[t]) else '?'
-                        kind = got[j][0] if j < len(got) and got[j][0] != 'ok' else 'value'
-                        ctx.violation('a thread running concurrently with others got a result different from the one it gets alone '
-                                      '(shared cache interference)', inp, observed={'thread': t, 'op': j, 'got': got[j] if j < len(got) else None},
-                                      expected=solo[t][j] if j < len(solo[t]) else None, key='shared-cache:%s:%s' % (opname, kind))
-                        break
+                evaluate(desc, progs, solo, tr, 'all-caches')
         batch.flush()
     finally:
         env.clear_caches = saved_clear
